@@ -1,22 +1,25 @@
 import CkbVerif.Model.Reorg
+import CkbVerif.Lemmas.PoolClosure
 
-/-! Helper lemmas for `Props/C12.lean`. Core Lean only. -/
+/-! Helper lemmas for `Props/C12.lean`, part 1: sub-pools, derived links (descendant closure),
+    "inputs resolvable" and "no conflict with attached" through `_update_tx_pool_for_reorg`. -/
 namespace CkbVerif.Reorg
+open CkbVerif.Pool (RT mem_calcRelation)
 
 /-- `q` consists of entries of `p`, possibly at another stage -/
 def Sub (q p : Pool) : Prop :=
-  ∀ e ∈ q, ∃ e0 ∈ p, e.id = e0.id ∧ e.spent = e0.spent ∧ e.deps = e0.deps ∧ e.hdeps = e0.hdeps
+  ∀ e ∈ q, ∃ e0 ∈ p, e.id = e0.id ∧ e.spent = e0.spent ∧ e.deps = e0.deps ∧ e.hdeps = e0.hdeps ∧ e.outs = e0.outs
 
-theorem Sub.refl (p : Pool) : Sub p p := fun e he => ⟨e, he, rfl, rfl, rfl, rfl⟩
+theorem Sub.refl (p : Pool) : Sub p p := fun e he => ⟨e, he, rfl, rfl, rfl, rfl, rfl⟩
 
 theorem Sub.trans {a b c : Pool} (h1 : Sub a b) (h2 : Sub b c) : Sub a c := by
   intro e he
-  obtain ⟨e1, he1, a1, a2, a3, a4⟩ := h1 e he
-  obtain ⟨e2, he2, b1, b2, b3, b4⟩ := h2 e1 he1
-  exact ⟨e2, he2, a1.trans b1, a2.trans b2, a3.trans b3, a4.trans b4⟩
+  obtain ⟨e1, he1, a1, a2, a3, a4, a5⟩ := h1 e he
+  obtain ⟨e2, he2, b1, b2, b3, b4, b5⟩ := h2 e1 he1
+  exact ⟨e2, he2, a1.trans b1, a2.trans b2, a3.trans b3, a4.trans b4, a5.trans b5⟩
 
 theorem Sub.of_filter (p : Pool) (f : PEnt → Bool) : Sub (p.filter f) p :=
-  fun e he => ⟨e, (List.mem_filter.mp he).1, rfl, rfl, rfl, rfl⟩
+  fun e he => ⟨e, (List.mem_filter.mp he).1, rfl, rfl, rfl, rfl, rfl⟩
 
 theorem sub_removeEntry (p : Pool) (id : Nat) : Sub (removeEntry p id) p := Sub.of_filter _ _
 theorem sub_removeWithDesc (p : Pool) (id : Nat) : Sub (removeWithDesc p id) p := Sub.of_filter _ _
@@ -36,18 +39,18 @@ theorem sub_resolveInput (p : Pool) (i : Nat) : Sub (resolveInput p i) p := by
     · exact Sub.refl p
   exact (sub_foldl (fun q (e : PEnt) => removeWithDesc q e.id) (fun q e => sub_removeWithDesc q e.id) _ _).trans h1
 
-theorem sub_removeCommitted (p : Pool) (tx : Tx) : Sub (removeCommitted p tx) p :=
+theorem sub_removeCommitted (p : Pool) (tx : CTx) : Sub (removeCommitted p tx) p :=
   (sub_foldl _ sub_resolveInput _ _).trans (sub_removeEntry p tx.id)
 
 theorem sub_resolveHeaderDeps (p : Pool) (hs : List Nat) : Sub (resolveHeaderDeps p hs) p :=
   sub_foldl (fun q (e : PEnt) => removeWithDesc q e.id) (fun q e => sub_removeWithDesc q e.id) _ _
 
 theorem sub_map_status (p : Pool) (f : PEnt → PEnt)
-    (hf : ∀ e, (f e).id = e.id ∧ (f e).spent = e.spent ∧ (f e).deps = e.deps ∧ (f e).hdeps = e.hdeps) :
+    (hf : ∀ e, (f e).id = e.id ∧ (f e).spent = e.spent ∧ (f e).deps = e.deps ∧ (f e).hdeps = e.hdeps ∧ (f e).outs = e.outs) :
     Sub (p.map f) p := by
   intro e he
   obtain ⟨e0, he0, rfl⟩ := List.mem_map.mp he
-  exact ⟨e0, he0, (hf e0).1, (hf e0).2.1, (hf e0).2.2.1, (hf e0).2.2.2⟩
+  exact ⟨e0, he0, (hf e0).1, (hf e0).2.1, (hf e0).2.2.1, (hf e0).2.2.2.1, (hf e0).2.2.2.2⟩
 
 theorem sub_detachProposal (p : Pool) (id : Nat) : Sub (detachProposal p id) p := by
   unfold detachProposal
@@ -60,7 +63,7 @@ theorem sub_detachProposal (p : Pool) (id : Nat) : Sub (detachProposal p id) p :
 
 theorem moveStage_core (a : Args) (e : PEnt) :
     (moveStage a e).id = e.id ∧ (moveStage a e).spent = e.spent ∧ (moveStage a e).deps = e.deps ∧
-    (moveStage a e).hdeps = e.hdeps := by
+    (moveStage a e).hdeps = e.hdeps ∧ (moveStage a e).outs = e.outs := by
   unfold moveStage
   repeat' split
   all_goals simp
@@ -109,7 +112,7 @@ theorem removeEntry_no_id (p : Pool) (id : Nat) : ∀ e ∈ removeEntry p id, e.
 theorem Sub.forall {q p : Pool} (h : Sub q p) (P : Nat → List Nat → List Nat → List Nat → Prop)
     (hp : ∀ e ∈ p, P e.id e.spent e.deps e.hdeps) : ∀ e ∈ q, P e.id e.spent e.deps e.hdeps := by
   intro e he
-  obtain ⟨e0, he0, a1, a2, a3, a4⟩ := h e he
+  obtain ⟨e0, he0, a1, a2, a3, a4, _⟩ := h e he
   rw [a1, a2, a3, a4]; exact hp e0 he0
 
 /-- folding removals that each delete the entry they are named after leaves none of the named ids;
@@ -136,5 +139,267 @@ theorem foldl_removeWithDesc_clears (sel : PEnt → Bool) (p : Pool) :
     refine ⟨h1.2, ?_⟩
     simp only [List.map_cons, List.mem_cons, not_or]
     exact ⟨h1.1, h2⟩
+
+
+/-! ### derived links: what `remove_entry_and_descendants` removes is closed under link children -/
+
+theorem mem_childIds {p : Pool} {id y : Nat} :
+    y ∈ childIds p id ↔ ∃ e ∈ p, ∃ c ∈ p, e.id = id ∧ c.id = y ∧ isChild e c = true := by
+  unfold childIds
+  simp only [List.mem_map, List.mem_filter, List.any_eq_true, beq_iff_eq]
+  constructor
+  · rintro ⟨c, ⟨hc, e, ⟨he, hid⟩, hch⟩, rfl⟩
+    exact ⟨e, he, c, hc, hid, rfl, hch⟩
+  · rintro ⟨e, he, c, hc, hid, rfl, hch⟩
+    exact ⟨c, ⟨hc, e, ⟨he, hid⟩, hch⟩, rfl⟩
+
+theorem childIds_sub_ids (p : Pool) (x y : Nat) (h : y ∈ childIds p x) : y ∈ ids p := by
+  obtain ⟨_, _, c, hc, _, rfl, _⟩ := mem_childIds.mp h
+  exact List.mem_map_of_mem hc
+
+/-- `calc_descendants`: everything reachable from a link child -/
+theorem mem_descOf (p : Pool) (id y : Nat) : y ∈ descOf p id ↔ ∃ c ∈ childIds p id, RT (childIds p) c y :=
+  mem_calcRelation (childIds p) (ids p) (childIds p id) (childIds_sub_ids p) y
+
+/-- `x` leaves with `remove_entry_and_descendants(id)` -/
+def Gone (p : Pool) (id x : Nat) : Prop := x = id ∨ x ∈ descOf p id
+
+theorem gone_child {p : Pool} {id : Nat} {e c : PEnt} (he : e ∈ p) (hc : c ∈ p) (hg : Gone p id e.id)
+    (hch : isChild e c = true) : Gone p id c.id := by
+  have hcc : c.id ∈ childIds p e.id := mem_childIds.mpr ⟨e, he, c, hc, rfl, rfl, hch⟩
+  rcases hg with h | h
+  · exact Or.inr ((mem_descOf p id c.id).mpr ⟨c.id, h ▸ hcc, .refl _⟩)
+  · obtain ⟨c0, hc0, hr⟩ := (mem_descOf p id e.id).mp h
+    exact Or.inr ((mem_descOf p id c.id).mpr ⟨c0, hc0, hr.snoc hcc⟩)
+
+theorem mem_removeWithDesc {p : Pool} {id : Nat} {e : PEnt} :
+    e ∈ removeWithDesc p id ↔ e ∈ p ∧ ¬ Gone p id e.id := by
+  unfold removeWithDesc Gone
+  simp only [List.mem_filter, Bool.and_eq_true, bne_iff_ne, ne_eq, Bool.not_eq_true', List.contains_eq_mem,
+    decide_eq_false_iff_not, not_or]
+
+/-! ### "every input / cell dep is live or created by a pooled entry" -/
+
+/-- every input and cell dep of a pooled entry is `live` or an output of a pooled entry -/
+def Resolvable (live : Nat → Prop) (q : Pool) : Prop :=
+  ∀ e ∈ q, ∀ o ∈ e.spent ++ e.deps, live o ∨ ∃ x ∈ q, o ∈ x.outs
+
+theorem refs_of_uses {x e : PEnt} {o : Nat} (ho : o ∈ e.spent ++ e.deps) (hx : o ∈ x.outs) : refs x e = true := by
+  unfold refs
+  rcases List.mem_append.mp ho with h | h
+  · have : e.spent.any x.outs.contains = true := List.any_eq_true.mpr ⟨o, h, by simpa using hx⟩
+    simp [this]
+  · have : e.deps.any x.outs.contains = true := List.any_eq_true.mpr ⟨o, h, by simpa using hx⟩
+    simp [this]
+
+/-- removing an entry with its descendants never leaves a user of a removed output behind -/
+theorem resolvable_removeWithDesc {live : Nat → Prop} {p : Pool} (id : Nat) (h : Resolvable live p) :
+    Resolvable live (removeWithDesc p id) := by
+  intro e he o ho
+  obtain ⟨hep, hng⟩ := mem_removeWithDesc.mp he
+  rcases h e hep o ho with hl | ⟨x, hx, hox⟩
+  · exact Or.inl hl
+  · by_cases hgx : Gone p id x.id
+    · exfalso
+      by_cases hid : e.id = x.id
+      · exact hng (hid ▸ hgx)
+      · apply hng
+        apply gone_child hx hep hgx
+        unfold isChild
+        simp [hid, refs_of_uses ho hox]
+    · exact Or.inr ⟨x, mem_removeWithDesc.mpr ⟨hx, hgx⟩, hox⟩
+
+theorem resolvable_foldl_removeWithDesc {live : Nat → Prop} {α} (f : α → Nat) (l : List α) (p : Pool)
+    (h : Resolvable live p) : Resolvable live (l.foldl (fun q x => removeWithDesc q (f x)) p) := by
+  induction l generalizing p with
+  | nil => exact h
+  | cons x xs ih => exact ih _ (resolvable_removeWithDesc (f x) h)
+
+theorem resolvable_resolveInput {live : Nat → Prop} {p : Pool} (i : Nat) (h : Resolvable live p) :
+    Resolvable live (resolveInput p i) := by
+  unfold resolveInput
+  apply resolvable_foldl_removeWithDesc (fun e : PEnt => e.id)
+  split
+  · exact resolvable_removeWithDesc _ h
+  · exact h
+
+theorem resolvable_foldl_resolveInput {live : Nat → Prop} (l : List Nat) (p : Pool) (h : Resolvable live p) :
+    Resolvable live (l.foldl resolveInput p) := by
+  induction l generalizing p with
+  | nil => exact h
+  | cons x xs ih => exact ih _ (resolvable_resolveInput x h)
+
+/-- `remove_entry` of a committed transaction: its outputs are accounted for by the chain -/
+theorem resolvable_removeEntry {live : Nat → Prop} {p : Pool} (id : Nat) (h : Resolvable live p)
+    (hl : ∀ x ∈ p, x.id = id → ∀ o ∈ x.outs, live o) : Resolvable live (removeEntry p id) := by
+  intro e he o ho
+  have hep := (List.mem_filter.mp he).1
+  rcases h e hep o ho with h1 | ⟨x, hx, hox⟩
+  · exact Or.inl h1
+  · by_cases hid : x.id = id
+    · exact Or.inl (hl x hx hid o hox)
+    · exact Or.inr ⟨x, List.mem_filter.mpr ⟨hx, by simpa using hid⟩, hox⟩
+
+theorem resolvable_removeCommitted {live : Nat → Prop} {p : Pool} (tx : CTx) (h : Resolvable live p)
+    (hl : ∀ x ∈ p, x.id = tx.id → ∀ o ∈ x.outs, live o) : Resolvable live (removeCommitted p tx) :=
+  resolvable_foldl_resolveInput _ _ (resolvable_removeEntry tx.id h hl)
+
+theorem resolvable_foldl_removeCommitted {live : Nat → Prop} (l : List CTx) (p : Pool) (h : Resolvable live p)
+    (hl : ∀ t ∈ l, ∀ x ∈ p, x.id = t.id → ∀ o ∈ x.outs, live o) :
+    Resolvable live (l.foldl removeCommitted p) := by
+  induction l generalizing p with
+  | nil => exact h
+  | cons t ts ih =>
+    apply ih _ (resolvable_removeCommitted t h (hl t (List.mem_cons_self ..)))
+    intro t' ht' x hx hid o ho
+    obtain ⟨x0, hx0, i1, _, _, _, i5⟩ := sub_removeCommitted p t x hx
+    exact hl t' (List.mem_cons_of_mem _ ht') x0 hx0 (i1 ▸ hid) o (i5 ▸ ho)
+
+/-- a stage change keeps the clause -/
+theorem resolvable_map {live : Nat → Prop} {p : Pool} (f : PEnt → PEnt)
+    (hf : ∀ e, (f e).id = e.id ∧ (f e).spent = e.spent ∧ (f e).deps = e.deps ∧ (f e).hdeps = e.hdeps ∧ (f e).outs = e.outs)
+    (h : Resolvable live p) : Resolvable live (p.map f) := by
+  intro e he o ho
+  obtain ⟨e0, he0, rfl⟩ := List.mem_map.mp he
+  rw [(hf e0).2.1, (hf e0).2.2.1] at ho
+  rcases h e0 he0 o ho with h1 | ⟨x, hx, hox⟩
+  · exact Or.inl h1
+  · exact Or.inr ⟨f x, List.mem_map_of_mem hx, by rw [(hf x).2.2.2.2]; exact hox⟩
+
+theorem resolvable_detachProposal {live : Nat → Prop} {p : Pool} (id : Nat) (h : Resolvable live p) :
+    Resolvable live (detachProposal p id) := by
+  unfold detachProposal
+  split
+  · split
+    · exact h
+    · apply resolvable_map _ _ h
+      intro e; split <;> simp
+  · exact h
+
+theorem resolvable_foldl_detachProposal {live : Nat → Prop} (l : List Nat) (p : Pool) (h : Resolvable live p) :
+    Resolvable live (l.foldl detachProposal p) := by
+  induction l generalizing p with
+  | nil => exact h
+  | cons x xs ih => exact ih _ (resolvable_detachProposal x h)
+
+/-- the clause goes through the whole update, for any `live` that accounts for the outputs of the
+    attached transactions that were pooled -/
+theorem resolvable_update {live : Nat → Prop} (p : Pool) (a : Args) (h : Resolvable live p)
+    (hl : ∀ t ∈ a.attached, ∀ x ∈ p, x.id = t.id → ∀ o ∈ x.outs, live o) : Resolvable live (update p a) := by
+  unfold update
+  apply resolvable_foldl_removeWithDesc (fun x : Nat => x)
+  apply resolvable_map _ (moveStage_core a)
+  apply resolvable_foldl_detachProposal
+  unfold resolveHeaderDeps
+  apply resolvable_foldl_removeWithDesc (fun e : PEnt => e.id)
+  exact resolvable_foldl_removeCommitted _ _ h hl
+
+theorem sub_limitLoop (m : Nat) (pref : List Nat) (f : Nat) (p : Pool) : Sub (limitLoop m pref f p) p := by
+  induction f generalizing p with
+  | zero => exact Sub.refl p
+  | succ n ih =>
+    unfold limitLoop
+    split
+    · split
+      · exact (ih _).trans (sub_removeWithDesc _ _)
+      · exact Sub.refl p
+    · exact Sub.refl p
+
+theorem sub_limitSize (a : Args) (p : Pool) : Sub (limitSize a p) p := sub_limitLoop _ _ _ _
+
+theorem resolvable_limitLoop {live : Nat → Prop} (m : Nat) (pref : List Nat) (f : Nat) (p : Pool)
+    (h : Resolvable live p) : Resolvable live (limitLoop m pref f p) := by
+  induction f generalizing p with
+  | zero => exact h
+  | succ n ih =>
+    unfold limitLoop
+    split
+    · split
+      · exact ih _ (resolvable_removeWithDesc _ h)
+      · exact h
+    · exact h
+
+/-- `limit_size` keeps the clause, whatever the eviction order -/
+theorem resolvable_limitSize {live : Nat → Prop} (a : Args) (p : Pool) (h : Resolvable live p) :
+    Resolvable live (limitSize a p) := resolvable_limitLoop _ _ _ _ h
+
+/-! ### no survivor spends or depends on what an attached transaction consumed -/
+
+/-- no out-point is spent by two pooled transactions (`edges.inputs` is a map; C11's invariant) -/
+def NoDoubleSpend (p : Pool) : Prop := ∀ e1 ∈ p, ∀ e2 ∈ p, ∀ o, o ∈ e1.spent → o ∈ e2.spent → e1.id = e2.id
+
+theorem NoDoubleSpend.sub {q p : Pool} (h : NoDoubleSpend p) (hs : Sub q p) : NoDoubleSpend q := by
+  intro e1 h1 e2 h2 o o1 o2
+  obtain ⟨a1, ha1, i1, i2, _⟩ := hs e1 h1
+  obtain ⟨a2, ha2, j1, j2, _⟩ := hs e2 h2
+  rw [i1, j1]
+  exact h a1 ha1 a2 ha2 o (i2 ▸ o1) (j2 ▸ o2)
+
+/-- first half of `resolve_conflict` for one out-point: the pooled spender goes -/
+def spenderGone (p : Pool) (i : Nat) : Pool :=
+  match p.find? (fun e => e.spent.contains i) with
+  | some e => removeWithDesc p e.id
+  | none => p
+
+theorem resolveInput_eq (p : Pool) (i : Nat) :
+    resolveInput p i = ((spenderGone p i).filter fun e => e.deps.contains i).foldl (fun q e => removeWithDesc q e.id) (spenderGone p i) := rfl
+
+theorem spenderGone_clears {p : Pool} (i : Nat) (hnd : NoDoubleSpend p) : ∀ x ∈ spenderGone p i, i ∉ x.spent := by
+  intro x hx hix
+  unfold spenderGone at hx
+  split at hx
+  · rename_i e1 hf
+    have h1 := List.find?_some hf
+    have hm := List.mem_of_find?_eq_some hf
+    obtain ⟨hxp, hng⟩ := mem_removeWithDesc.mp hx
+    exact hng (Or.inl (hnd x hxp e1 hm i hix (by simpa using h1)))
+  · rename_i hf
+    have := List.find?_eq_none.mp hf x hx
+    simp at this
+    exact this hix
+
+/-- `resolve_conflict` for the consumed out-point `i` leaves no spender and no dep user of `i` -/
+theorem resolveInput_clears {p : Pool} (i : Nat) (hnd : NoDoubleSpend p) :
+    ∀ e ∈ resolveInput p i, i ∉ e.spent ∧ i ∉ e.deps := by
+  intro e he
+  rw [resolveInput_eq] at he
+  have hsub : Sub (((spenderGone p i).filter fun e => e.deps.contains i).foldl (fun q e => removeWithDesc q e.id) (spenderGone p i)) (spenderGone p i) :=
+    sub_foldl (fun q (e : PEnt) => removeWithDesc q e.id) (fun q e => sub_removeWithDesc q e.id) _ _
+  obtain ⟨e0, he0, i1, i2, i3, _⟩ := hsub e he
+  refine ⟨i2 ▸ spenderGone_clears i hnd e0 he0, ?_⟩
+  intro hd
+  have hoff : e0 ∈ (spenderGone p i).filter (fun x => x.deps.contains i) :=
+    List.mem_filter.mpr ⟨he0, by rw [← i3]; simpa using hd⟩
+  exact foldl_removeWithDesc_clears (fun x => x.deps.contains i) (spenderGone p i) e he (i1 ▸ List.mem_map_of_mem hoff)
+
+theorem foldl_resolveInput_clears (l : List Nat) (p : Pool) (hnd : NoDoubleSpend p) :
+    ∀ e ∈ l.foldl resolveInput p, ∀ i ∈ l, i ∉ e.spent ∧ i ∉ e.deps := by
+  induction l generalizing p with
+  | nil => intro e _ i hi; simp at hi
+  | cons x xs ih =>
+    intro e he i hi
+    simp only [List.foldl_cons] at he
+    rcases List.mem_cons.mp hi with rfl | h
+    · obtain ⟨e0, he0, _, i2, i3, _⟩ := sub_foldl _ sub_resolveInput xs (resolveInput p i) e he
+      have := resolveInput_clears i hnd e0 he0
+      exact ⟨i2 ▸ this.1, i3 ▸ this.2⟩
+    · exact ih _ (hnd.sub (sub_resolveInput p x)) e he i h
+
+theorem foldl_removeCommitted_clears (l : List CTx) (p : Pool) (hnd : NoDoubleSpend p) :
+    ∀ e ∈ l.foldl removeCommitted p, ∀ t ∈ l, ∀ i ∈ t.spent, i ∉ e.spent ∧ i ∉ e.deps := by
+  induction l generalizing p with
+  | nil => intro e _ t ht; simp at ht
+  | cons x xs ih =>
+    intro e he t ht i hi
+    simp only [List.foldl_cons] at he
+    rcases List.mem_cons.mp ht with rfl | h
+    · obtain ⟨e0, he0, _, i2, i3, _⟩ := sub_foldl _ sub_removeCommitted xs (removeCommitted p t) e he
+      have := foldl_resolveInput_clears t.spent (removeEntry p t.id) (hnd.sub (sub_removeEntry p t.id)) e0 he0 i hi
+      exact ⟨i2 ▸ this.1, i3 ▸ this.2⟩
+    · exact ih _ (hnd.sub (sub_removeCommitted p x)) e he t h i hi
+
+theorem sub_update_attached (p : Pool) (a : Args) : Sub (update p a) (a.attached.foldl removeCommitted p) := by
+  unfold update
+  exact (sub_update_tail a _).trans (sub_resolveHeaderDeps _ _)
 
 end CkbVerif.Reorg
